@@ -276,7 +276,7 @@ func c03Run(c *core.Ctx) *core.Result {
 		r.Count("prior_dirs_announced_as_symlink_or_fifo", 1)
 	}
 	// one mutation
-	mut := core.Pick(R, []string{"none", "none", "dotdot", "dot", "empty", "updown", "dotdotx", "abs", "unclean", "dup", "order", "childofnondir", "noparent", "hl-unknown", "hl-later", "hl-escape", "hl-nonfile", "data-unsolicited", "data-afterterm", "backslash", "newline", "hugesize", "fin-early", "stat-after-end", "err-packet", "req-from-sender", "hl-via-dest-symlink", "hl-via-dest-symlink", "tmp-name-planted", "random-script", "random-script", "deep-revisit", "deep-revisit", "listing-dir-child", "hl-shared-inode"})
+	mut := core.Pick(R, []string{"none", "none", "dotdot", "dot", "empty", "updown", "dotdotx", "abs", "unclean", "dup", "order", "childofnondir", "noparent", "hl-unknown", "hl-later", "hl-escape", "hl-nonfile", "data-unsolicited", "data-afterterm", "backslash", "newline", "hugesize", "fin-early", "stat-after-end", "err-packet", "req-from-sender", "hl-via-dest-symlink", "hl-via-dest-symlink", "tmp-name-planted", "random-script", "random-script", "deep-revisit", "deep-revisit", "listing-dir-child", "hl-shared-inode", "hybrid-mode", "hybrid-mode"})
 	k := 0
 	if len(stats) > 0 {
 		k = R.Intn(len(stats) + 1)
@@ -555,6 +555,28 @@ func c03Run(c *core.Ctx) *core.Result {
 		m.Mode = 0600
 		m.Linkname = hlSrc
 		stats = append(stats, m)
+	case "hybrid-mode":
+		// a mode word with two type bits (no honest sender produces it, a
+		// peer can): whatever the receiver takes the entry for, the order and
+		// link validators and the writer have to take it for the same thing.
+		// Announced with a link name that leads out of dest and followed by
+		// children whose names exist there.
+		hm := core.Pick(R, []os.FileMode{os.ModeDir | os.ModeSymlink, os.ModeDir | os.ModeSymlink, os.ModeDir | os.ModeSymlink, os.ModeDir | os.ModeNamedPipe,
+			os.ModeDir | os.ModeDevice | os.ModeCharDevice, os.ModeDir | os.ModeSocket, os.ModeDir | os.ModeIrregular, os.ModeSymlink | os.ModeNamedPipe, os.ModeSymlink | os.ModeDevice})
+		nm := core.Pick(R, []string{"hz", "hz", "a0", "e"})
+		tg := core.Pick(R, []string{outside + "/dir", outside + "/dir/sub", outside, "../../../outside/dir", up + rc + "/outside/dir", "../..", caseDir + "/work/p"})
+		add := []*types.Stat{{Path: nm, Mode: uint32(hm | 0755), Linkname: tg, ModTime: 1e18}}
+		if hm&os.ModeDir != 0 {
+			add = append(add, fileStat(nm+"/a"), fileStat(nm+"/inner"), dirStat(nm+"/sub"), fileStat(nm+"/sub/a"), fileStat(nm+"/sub/deep"),
+				&types.Stat{Path: nm + "/top", Mode: uint32(os.ModeSymlink | 0777), Linkname: "x"})
+			content[nm+"/a"], content[nm+"/inner"], content[nm+"/sub/a"], content[nm+"/sub/deep"] = []byte("PWNED"), []byte("PWNED"), []byte("PWNED"), []byte("PWNED")
+		}
+		for _, st := range add {
+			stats = append(stats, st)
+			for i := len(stats) - 1; i > 0 && tree.CmpPath(stats[i-1].Path, stats[i].Path) > 0; i-- {
+				stats[i-1], stats[i] = stats[i], stats[i-1]
+			}
+		}
 	case "err-packet":
 		unsolicited = append(unsolicited, hpkt{Kind: "err", Data: []byte("sender says no")})
 	case "req-from-sender":
